@@ -222,3 +222,158 @@ def check_assembly_fields(led):
                     probs.append('result is %r' % type(r).__name__)
             report(led, name, func, probs)
     led.solver_time('z3-feasibility', it.solver_time)
+
+
+# ------------------------------------------------------------------------------------------------ StiffPanelBay field recovery
+BFF = 'compmech/stiffpanelbay/stiffpanelbay.py:StiffPanelBay.'
+
+
+def check_bay_fields(led):
+    """StiffPanelBay.uvw_skin / uvw_stiffener: the field of a component is evaluated with that component's own slice of the bay's
+    amplitude vector -- the range the matrices use (skin | flanges of the 2-D blade stiffeners | base, flange of the T stiffeners,
+    each group in the order of its own list) -- and with that component's attributes; the values are those of the requested points
+    in order and shape."""
+    from ..pysym import to_z3
+    from . import py_stiffeners
+    it, calls = py_panel.mk()
+    py_stiffeners._with_plies(it)
+    it.algebraic_minmax = True
+    bmod = it.module('compmech.stiffpanelbay.stiffpanelbay')
+    for fn in ('uvw_skin', 'uvw_stiffener'):
+        led.function(BFF + fn)
+    lam = dict(stack=[real('th')], plyt=real('t'), laminaprop=(real('E'), real('E'), real('nu')))
+    flam = dict(fstack=[real('thf')], fplyt=real('tf'), flaminaprop=(real('Ef'), real('Ef'), real('nuf')))
+    blam = dict(bstack=[real('thb')], bplyt=real('tb'), blaminaprop=(real('Eb'), real('Eb'), real('nub')))
+    orders = [('b2',), ('t2',), ('b2', 'b2'), ('t2', 't2'), ('b2', 't2'), ('t2', 'b2'), ('b1', 'b2'), ('b1', 't2', 'b2')]
+    X = np.array([real('xq0'), real('xq1'), real('xq2')], dtype=object)
+    Y = np.array([real('yq0'), real('yq1'), real('yq2')], dtype=object)
+    for kinds in orders:
+        targets = [('skin', None, None)] + [(k, si, reg) for si, k in enumerate(kinds) if k != 'b1' for reg in (('flange',) if k == 'b2' else ('base', 'flange'))]
+        for (what, si, region) in targets:
+            tag = 'stiffeners=%s,%s' % ('/'.join(kinds), 'skin' if si is None else 'stiffener %d %s' % (si, region))
+            func = BFF + ('uvw_skin' if si is None else 'uvw_stiffener')
+
+            def run():
+                del calls[:]
+                bay = it.call(bmod.g['StiffPanelBay'], [], {})
+                a, b = real('a'), real('b')
+                m, n = integer('m'), integer('n')
+                bay.attrs.update(a=a, b=b, m=m, n=n, mu=real('mu'), r=None, model='plate_clt_donnell_bardell', out_num_cores=integer('ncores'), **lam)
+                for f in py_stiffeners.FLAG_NAMES:
+                    bay.attrs[f] = real(f + '_bay')
+                cuts = [P.const(0)] + [real('ys%d' % q) for q in range(len(kinds))] + [b]
+                it.facts[:] = [to_z3(a) > 0, to_z3(b) > 0, to_z3(a) <= 10 * to_z3(b)]
+                for q in range(len(cuts) - 1):
+                    it.facts.append(to_z3(cuts[q]) < to_z3(cuts[q + 1]))
+                    it.call(it.getattr(bay, 'add_panel'), [], dict(y1=cuts[q], y2=cuts[q + 1]))
+                it.np.isclose = lambda x, y, **k: pysym.compare('==', x if isinstance(x, P) else P.const(x), y if isinstance(y, P) else P.const(y))
+                stiffs = []
+                for q, k in enumerate(kinds):
+                    ys = cuts[q + 1]
+                    if k == 'b2':
+                        s = it.call(it.getattr(bay, 'add_bladestiff2d'), [], dict(ys=ys, bf=real('bf%d' % q), mf=integer('mf%d' % q), nf=integer('nf%d' % q), **flam))
+                    elif k == 't2':
+                        s = it.call(it.getattr(bay, 'add_tstiff2d'), [], dict(ys=ys, bb=real('bb%d' % q), bf=real('bf%d' % q), mb=integer('mb%d' % q), nb=integer('nb%d' % q),
+                                                                               mf=integer('mf%d' % q), nf=integer('nf%d' % q), **dict(flam, **blam)))
+                    else:
+                        s = it.call(it.getattr(bay, 'add_bladestiff1d'), [], dict(ys=ys, bf=real('bf%d' % q), **flam))
+                    stiffs.append(s)
+                size = it.call(it.getattr(bay, 'get_size'), [], {})
+                c = InArray('c', shape=(size,))
+                del calls[:]
+                if si is None:
+                    r = it.call(it.getattr(bay, 'uvw_skin'), [c], dict(xs=X, ys=Y))
+                else:
+                    r = it.call(it.getattr(bay, 'uvw_stiffener'), [c, si], dict(region=region, xs=X, ys=Y))
+                return bay, stiffs, r, list(calls), (m, n)
+            for path, out in it.explore(run):
+                name = '%s[%s]' % (func, tag)
+                if out[0] != 'return':
+                    report(led, name + '/no-exception', func, ['raises %s%s' % (out[1].tname, tuple(str(a_)[:80] for a_ in out[1].eargs))], signature='raise:' + out[1].tname,
+                           replay=replay_bay_field)
+                    continue
+                bay, stiffs, r, cl, (m, n) = out[1]
+                probs = []
+                # the layout of the matrices
+                pos = 3 * m * n
+                rng = {('skin', None): (P.const(0), pos)}
+                for q, (k, s) in enumerate(zip(kinds, stiffs)):
+                    if k == 'b2':
+                        sz = 3 * integer('mf%d' % q) * integer('nf%d' % q)
+                        rng[(q, 'flange')] = (pos, pos + sz)
+                        pos = pos + sz
+                for q, (k, s) in enumerate(zip(kinds, stiffs)):
+                    if k == 't2':
+                        szb = 3 * integer('mb%d' % q) * integer('nb%d' % q)
+                        szf = 3 * integer('mf%d' % q) * integer('nf%d' % q)
+                        rng[(q, 'base')] = (pos, pos + szb)
+                        rng[(q, 'flange')] = (pos + szb, pos + szb + szf)
+                        pos = pos + szb + szf
+                lo, hi = rng[('skin', None)] if si is None else rng[(si, region)]
+                wantc = 'c[%s:%s]' % (normal(lo).text(), normal(hi).text())
+                fc = [c_ for c_ in cl if isinstance(c_, Opaque) and c_.kind == 'field-call']
+                if len(fc) != 1:
+                    probs.append('%d field-kernel calls, expected one' % len(fc))
+                else:
+                    call = fc[0]
+                    if call.f['c'] != wantc:
+                        probs.append('evaluated with amplitudes %s, expected the component\'s own range %s' % (call.f['c'], wantc))
+                    comp = bay if si is None else stiffs[si].attrs[region]
+                    for key in ('a', 'b', 'm', 'n') + tuple(py_stiffeners.FLAG_NAMES):
+                        if key in call.f['panel']:
+                            e = comp.attrs[key] if si is not None else bay.attrs[key]
+                            g = call.f['panel'][key]
+                            if not normal((g if isinstance(g, P) else P.const(g)) - (e if isinstance(e, P) else P.const(e))).is_zero():
+                                probs.append('kernel sees %s = %s, the component has %s' % (key, g, e))
+                    if not (isinstance(call.f['num_cores'], P) and normal(call.f['num_cores'] - integer('ncores')).is_zero()):
+                        probs.append('thread count passed: %s' % (call.f['num_cores'],))
+                    if not (isinstance(r, tuple) and len(r) == 5):
+                        probs.append('result is %r' % type(r).__name__)
+                    else:
+                        for key, arr in zip(('u', 'v', 'w', 'phix', 'phiy'), r):
+                            cmp_array(key, arr, key, wantc, call.f['pkey'], X, Y, None, probs)
+                report(led, name, func, probs, replay=replay_bay_field if probs else None)
+    led.solver_time('z3-feasibility', it.solver_time)
+    led.bounded_item('StiffPanelBay field recovery: 1..3 stiffeners in 8 orders of kinds (sizes, series orders, positions symbolic); three symbolic points')
+
+
+def replay_bay_field():
+    from ..pyreplay import run_real
+    script = '''
+import numpy as np
+from compmech.stiffpanelbay import StiffPanelBay
+from compmech.panel.modelDB import db
+lp = (142.5e9, 8.7e9, 0.28, 5.1e9, 5.1e9, 5.1e9)
+res = {}
+for kinds in (['b2', 'b2'], ['t2', 'b2'], ['b2', 't2']):
+    spb = StiffPanelBay()
+    spb.a = 2.; spb.b = 1.; spb.m = 4; spb.n = 4; spb.model = 'plate_clt_donnell_bardell'
+    spb.stack = [0, 90, 90, 0]; spb.plyt = 1.25e-4; spb.mu = 1.3e3; spb.laminaprop = lp
+    spb.add_panel(y1=0, y2=0.3); spb.add_panel(y1=0.3, y2=0.6); spb.add_panel(y1=0.6, y2=1.)
+    for y, k in zip([0.3, 0.6], kinds):
+        if k == 'b2':
+            spb.add_bladestiff2d(ys=y, bf=0.05, fstack=[0]*8, fplyt=spb.plyt, flaminaprop=lp, mf=3, nf=3)
+        else:
+            spb.add_tstiff2d(ys=y, bb=0.1, bf=0.05, bstack=[0]*8, bplyt=spb.plyt, blaminaprop=lp, fstack=[0]*8, fplyt=spb.plyt, flaminaprop=lp, mb=3, nb=4, mf=3, nf=3)
+    pos = 3*spb.m*spb.n
+    lay = {}
+    for s in spb.bladestiff2ds:
+        lay[id(s)] = (pos, pos + s.flange.get_size()); pos += s.flange.get_size()
+    for s in spb.tstiff2ds:
+        pos += s.base.get_size(); lay[id(s)] = (pos, pos + s.flange.get_size()); pos += s.flange.get_size()
+    c = np.arange(spb.get_size(), dtype=float)
+    for si, s in enumerate(spb.stiffeners):
+        lo, hi = lay[id(s)]
+        try:
+            got = spb.uvw_stiffener(c, si, region='flange', xs=np.array([0.5]), ys=np.array([0.02]))
+            ref = db[s.flange.model]['field'].fuvw(c[lo:hi].copy(), s.flange, np.array([0.5]), np.array([0.02]), 1)
+            res['%s/%d' % ('+'.join(kinds), si)] = 'ok' if abs(got[2][0] - ref[2][0]) <= 1e-9*max(1., abs(ref[2][0])) else 'wrong slice: w = %.6g, own slice gives %.6g' % (got[2][0], ref[2][0])
+        except Exception as e:
+            res['%s/%d' % ('+'.join(kinds), si)] = 'raised %s: %s' % (type(e).__name__, str(e)[:80])
+out = {'result': res}
+'''
+    r = run_real(script, {})
+    r['reproduced'] = any(v != 'ok' for v in (r.get('result') or {}).values()) and not r.get('raised')
+    r['input'] = 'bay 2 x 1, m=n=4, three skin panels, two 2-D stiffeners in the orders b2+b2, t2+b2, b2+t2; flange field of each at one point'
+    r['real_function'] = 'StiffPanelBay.uvw_stiffener'
+    return r
